@@ -205,21 +205,27 @@ fn gen_node_pull(c: &mut Chooser, depth: usize, allow_take: bool) -> Node {
 
 /// Generate a case for operator `op` (one of ALL_OPS).
 pub fn gen_case(c: &mut Chooser, op: &str, prop: &str) -> CaseSpec {
-    // "merge+deep": the thorough tier's larger configurations (more members, longer scripts,
-    // longer schedules, deeper trees)
-    match op.strip_suffix("+deep") {
-        Some(base) => gen_case_full(c, base, prop, false, true),
-        None => gen_case_full(c, op, prop, false, false),
+    // "merge+deep": larger configurations (more members, longer scripts, longer schedules, deeper
+    // trees); "merge+wide": configurations beyond every small bound (dozens of members, hundreds
+    // of inner sources or items, long synchronous pull chains)
+    if let Some(base) = op.strip_suffix("+deep") {
+        gen_case_full(c, base, prop, false, true, false)
+    } else if let Some(base) = op.strip_suffix("+wide") {
+        gen_case_full(c, base, prop, false, true, true)
+    } else {
+        gen_case_full(c, op, prop, false, false, false)
     }
 }
 
 pub fn gen_case_sized(c: &mut Chooser, op: &str, prop: &str, small: bool) -> CaseSpec {
-    gen_case_full(c, op, prop, small, false)
+    gen_case_full(c, op, prop, small, false, false)
 }
 
 /// `small`: tiny configurations for the schedule enumerator (at most 2 members / inners / sinks,
 /// scripts of at most 2 items, reaction tables of at most 3 entries, at most 5 driver steps)
-pub fn gen_case_full(c: &mut Chooser, op: &str, prop: &str, small: bool, deep: bool) -> CaseSpec {
+/// `wide` (implies `deep`): sizes beyond every small bound - 60..90 merge members, 8..28 concat
+/// members, 250..310 inner sources, scripts of a hundred items and more, a dozen share sinks
+pub fn gen_case_full(c: &mut Chooser, op: &str, prop: &str, small: bool, deep: bool, wide: bool) -> CaseSpec {
     let credit = prop == "C14";
     let indep = prop == "C13";
     let mut allow_late = false;
@@ -229,20 +235,28 @@ pub fn gen_case_full(c: &mut Chooser, op: &str, prop: &str, small: bool, deep: b
         "map" | "filter" | "scan" | "take" | "skip" => Topo::Unary(gen_unop(c, op)),
         "merge" => {
             allow_late = true;
-            Topo::Merge(if c.chance(1, 12) { 0 } else { 1 + c.choose(if small { 2 } else if deep { 6 } else { 4 }) })
+            if wide {
+                Topo::Merge(60 + c.choose(30))
+            } else {
+                Topo::Merge(if c.chance(1, 12) { 0 } else { 1 + c.choose(if small { 2 } else if deep { 6 } else { 4 }) })
+            }
         },
+        "concat" if wide => Topo::Concat(8 + c.choose(20)),
         "concat" => Topo::Concat(if c.chance(1, 12) { 0 } else { 1 + c.choose(if small { 2 } else if deep { 6 } else { 4 }) }),
         "combine" => Topo::Combine(1 + c.choose(if small { 2 } else { 3 })),
+        "flatten" if wide && c.chance(1, 4) => Topo::FlattenRepeat(250 + c.choose(60)),
+        "flatten" if wide => Topo::Flatten(250 + c.choose(60)),
         "flatten" if !small && c.chance(1, 8) => Topo::FlattenRepeat(2 + c.choose(3)),
         "flatten" => Topo::Flatten(c.choose(if small { 3 } else if deep { 8 } else { 5 })),
         "share" => {
-            n_probes = 1 + c.choose(if small { 2 } else { 3 });
+            n_probes = if wide { 4 + c.choose(9) } else { 1 + c.choose(if small { 2 } else { 3 }) };
             Topo::Share(n_probes)
         },
         "for_each" => {
             n_probes = 0;
             Topo::ForEach
         },
+        "from_iter" if wide => Topo::FromIter(if c.chance(1, 4) { None } else { Some(100 + c.choose(300)) }),
         "from_iter" => Topo::FromIter([Some(0), Some(1), Some(2), Some(3), Some(6), None][c.choose(6)]),
         _ => {
             let d = if small { 1 } else if deep { 2 + c.choose(3) } else { 1 + c.choose(3) };
@@ -316,6 +330,10 @@ pub fn gen_case_full(c: &mut Chooser, op: &str, prop: &str, small: bool, deep: b
     };
     let mut pspecs = vec![];
     let mut lens = vec![];
+    // wide fan-ins: half of the time every member is of the same kind (e.g. all answer inside the
+    // Pull, so that one member's end starts the next from inside the previous one's, dozens deep)
+    let many = wide && matches!(topo, Topo::Merge(_) | Topo::Concat(_) | Topo::Flatten(_) | Topo::FlattenRepeat(_));
+    let homogeneous: Option<Mode> = if many && c.chance(1, 2) { Some(ALL_MODES[c.choose(3)]) } else { None };
     let fins: &[Fin] = if prop == "C05" { &[Fin::End, Fin::Err, Fin::Err, Fin::Never] } else { ALL_FINS };
     for i in 0..n_puppets {
         let modes: &[Mode] = match &topo {
@@ -327,6 +345,23 @@ pub fn gen_case_full(c: &mut Chooser, op: &str, prop: &str, small: bool, deep: b
         } else {
             gen_puppet_spec(c, allow_late, modes, fins)
         };
+        if many {
+            // with dozens of members a failing one in four would end every history at once
+            if s.fin == Fin::Err && !c.chance(1, 12) {
+                s.fin = Fin::End;
+            }
+            if let Some(m) = homogeneous {
+                if !(matches!(topo, Topo::Flatten(_) | Topo::FlattenRepeat(_)) && i == 0) {
+                    s.mode = m;
+                    if m != Mode::Listen {
+                        s.burst = 0;
+                        if s.fin == Fin::Never {
+                            s.fin = Fin::End;
+                        }
+                    }
+                }
+            }
+        }
         if !credit && s.mode == Mode::PullSync && c.chance(1, 6) {
             // a source that answers every Pull with a batch of two
             s.per_pull = 2;
@@ -344,7 +379,22 @@ pub fn gen_case_full(c: &mut Chooser, op: &str, prop: &str, small: bool, deep: b
             s.late = false;
         }
         pspecs.push(s);
-        lens.push(c.choose(if small { 3 } else if deep { 10 } else { 5 }));
+        let wide_len = match &topo {
+            _ if !wide => None,
+            // many members / inner sources: each one short
+            Topo::Merge(_) | Topo::Concat(_) | Topo::Flatten(_) => Some(c.choose(3)),
+            Topo::FlattenRepeat(_) => Some(c.choose(3)),
+            // combine: one long member (a long synchronous pull chain when it answers inside the
+            // Pull and the sink pulls inside its handlers), the others short but not empty
+            Topo::Combine(_) => Some(if i == 0 { 70 + c.choose(70) } else { 1 + c.choose(4) }),
+            Topo::Share(_) => Some(20 + c.choose(60)),
+            Topo::Unary(_) | Topo::ForEach => Some(100 + c.choose(250)),
+            _ => None,
+        };
+        lens.push(match wide_len {
+            Some(n) => n,
+            None => c.choose(if small { 3 } else if deep { 10 } else { 5 }),
+        });
     }
     if matches!(topo, Topo::Merge(_) | Topo::Combine(_)) {
         // a source that reacts to being told to stop: inside that call a sibling greets (late
@@ -375,6 +425,24 @@ pub fn gen_case_full(c: &mut Chooser, op: &str, prop: &str, small: bool, deep: b
         fix_tree_lens(node, &mut lens, &mut 0);
     }
     let mut probe_specs: Vec<ProbeSpec> = (0..n_probes).map(|_| gen_probe_spec(c, !credit)).collect();
+    if wide {
+        // sinks that keep the long histories going: mostly pulling, and a disposal (if any) at a
+        // position anywhere in the long history rather than among the first five messages
+        for p in probe_specs.iter_mut() {
+            if c.chance(2, 3) {
+                p.rest = React::Pull;
+            }
+            if !credit && c.chance(1, 3) {
+                let total: usize = lens.iter().sum::<usize>().min(150);
+                let k = c.choose(total + 2);
+                let base = if c.chance(3, 4) { React::Pull } else { React::Nothing };
+                let mut policy = vec![base; k];
+                policy.push([React::Terminate, React::Error, React::PullTerminate, React::PullError][c.choose(4)]);
+                p.policy = policy;
+                p.rest = base;
+            }
+        }
+    }
     if let Topo::Share(n) = &topo {
         // now and then a sink attaches another sink from inside one of its handlers
         if *n >= 2 && !credit && c.chance(1, 3) {
@@ -431,7 +499,7 @@ pub fn gen_case_full(c: &mut Chooser, op: &str, prop: &str, small: bool, deep: b
         pspecs,
         lens,
         probe_specs,
-        max_steps: if small { 3 + c.choose(3) } else if deep { 15 + c.choose(45) } else { 6 + c.choose(20) },
+        max_steps: if small { 3 + c.choose(3) } else if wide { 40 + c.choose(260) } else if deep { 15 + c.choose(45) } else { 6 + c.choose(20) },
         drain: credit || c.chance(1, 2),
         credit_env: credit,
         weights: if credit { [8, 5, 4, 0, 0, 4] } else { [8, 5, 4, 1, 1, 4] },
